@@ -79,9 +79,7 @@ func (lh *WorkerLoop) Run(ctx context.Context) {
 			return
 
 		case msg := <-lh.MessagesChannel:
-			parsedMessage := interfaces.ToConsensusMessage(msg)
-			lh.logger.Debug("LHFLOW LHMSG WORKERLOOP RECEIVED %v from %v for H=%d V=%d", parsedMessage.MessageType(), parsedMessage.SenderMemberId(), parsedMessage.BlockHeight(), parsedMessage.View())
-			lh.filter.HandleConsensusRawMessage(msg)
+			lh.handleConsensusRawMessage(msg)
 
 		case trigger := <-lh.electionChannel:
 			if trigger == nil {
@@ -112,6 +110,23 @@ func (lh *WorkerLoop) Run(ctx context.Context) {
 	}
 }
 
+// handleConsensusRawMessage processes one message from the network. Its bytes are not trusted: a message the readers
+// cannot parse (or panic on, at any nesting level) is dropped and the loop carries on.
+func (lh *WorkerLoop) handleConsensusRawMessage(msg *interfaces.ConsensusRawMessage) {
+	defer func() {
+		if r := recover(); r != nil {
+			lh.logger.Info("LHFLOW LHMSG WORKERLOOP MALFORMED MESSAGE IGNORED - %v", r)
+		}
+	}()
+	parsedMessage := parseConsensusMessage(msg)
+	if parsedMessage == nil {
+		lh.logger.Info("LHFLOW LHMSG WORKERLOOP MALFORMED MESSAGE IGNORED")
+		return
+	}
+	lh.logger.Debug("LHFLOW LHMSG WORKERLOOP RECEIVED %v from %v for H=%d V=%d", parsedMessage.MessageType(), parsedMessage.SenderMemberId(), parsedMessage.BlockHeight(), parsedMessage.View())
+	lh.filter.HandleConsensusRawMessage(msg)
+}
+
 func (lh *WorkerLoop) handleUpdateState(receivedBlockWithProof *blockWithProof) {
 	receivedBlockHeight := blockheight.GetBlockHeight(receivedBlockWithProof.block)
 
@@ -125,7 +140,12 @@ func (lh *WorkerLoop) handleUpdateState(receivedBlockWithProof *blockWithProof) 
 	}
 }
 
-func (lh *WorkerLoop) ValidateBlockConsensus(ctx context.Context, block interfaces.Block, blockProofBytes []byte, prevBlock interfaces.Block, maybePrevBlockProofBytes []byte, softVerify bool) error {
+func (lh *WorkerLoop) ValidateBlockConsensus(ctx context.Context, block interfaces.Block, blockProofBytes []byte, prevBlock interfaces.Block, maybePrevBlockProofBytes []byte, softVerify bool) (err error) {
+	defer func() {
+		if r := recover(); r != nil { // the proof bytes are not trusted: malformed bytes are an error, not a crash
+			err = errors.Errorf("ValidateBlockConsensus: malformed blockProof: %v", r)
+		}
+	}()
 	if ctx.Err() != nil {
 		return errors.New("context canceled")
 	}
